@@ -389,7 +389,8 @@ def run(ctx):
     from .. import explore
     tot = 0
     for combo in [("inyt", 60, 60)] + ([("inxm", 9, 9), ("inyj", 62, 59), ("inxe", 61, 60)] if not ctx.quick else []):
-        st = explore.explore(ctx, _ready_job, combo, 1 if ctx.quick else 2, label=f"ready{combo}", max_execs=20000)
+        deep = (not ctx.quick) and combo[0] == "inyt"  # two pre-emptions on one combination (capped), one on the others
+        st = explore.explore(ctx, _ready_job, combo, 2 if deep else 1, label=f"ready{combo}", max_execs=6000 if deep else 20000)
         tot += st["executions"]
         explore.fold_stats(ctx, st, prefix="ready_")
         if len(st["end"]) < 2 and not st["stopped_on_violation"]:
